@@ -5,11 +5,13 @@ import (
 	"rscheck/driver"
 	"rscheck/rules/c09"
 	"rscheck/rules/c18"
+	"rscheck/rules/c19"
 )
 
 func main() {
 	driver.Main([]driver.PropDef{
 		c09.Def,
 		c18.Def,
+		c19.Def,
 	})
 }
